@@ -1,6 +1,7 @@
 // C01: feed a call sequence to the real AspifOutput, print the bytes, read them back with the real AspifInput
 // (modes 0/1), or read a given text, write what was delivered with AspifOutput and read that again (modes 2/3).
 // See coq/C01/Model.v for the case / observation layout.
+// Every other case (reuse::primed, a hash of the case) does each read with a reader OBJECT that has read an incremental text before.
 #include "common.h"
 #include "c01_read.h"
 #include <potassco/match_basic_types.h>
@@ -18,19 +19,20 @@ static int writeCalls(Case& c, std::string& text) {
 int main() {
 	Case c; Obs o;
 	while (readCase(c)) {
+		const bool primed = reuse::primed(c);
 		int mode = (int)c.next(); ll n = c.next();
 		if (n != Potassco::BufferedStream::BUF_SIZE) { o.add(-999); o.flush(); continue; }
 		std::string text;
 		if (mode < 2) {
 			if (int cls = writeCalls(c, text)) { o.add(-cls); o.flush(); continue; }
 			o.add((ll)text.size()); o.addBytes(text.data(), text.size());
-			c01::readText(text, mode, o);
+			c01::readText(text, mode, o, 0, primed);
 		}
 		else {
 			size_t len = (size_t)c.next();
 			text = c.bytes(len);
 			Obs rec;
-			bool ok = c01::readText(text, mode - 2, o, &rec);
+			bool ok = c01::readText(text, mode - 2, o, &rec, primed);
 			Case cc; c01::parseInts(rec.s, cc);
 			o.add((ll)cc.v.size());
 			if (!rec.s.empty()) { o.s += ' '; o.s += rec.s; }
@@ -38,7 +40,7 @@ int main() {
 				std::string t2;
 				if (int cls = writeCalls(cc, t2)) { o.add(-cls); o.flush(); continue; }
 				o.add((ll)t2.size()); o.addBytes(t2.data(), t2.size());
-				c01::readText(t2, mode - 2, o);
+				c01::readText(t2, mode - 2, o, 0, primed);
 			}
 		}
 		o.flush();
